@@ -239,6 +239,24 @@ def search(rng, tier, broken):
                 tried += 1
                 r = check_tree(t, [xa, xb], [ka, kb], [(0.03, 0.04), (0.05, 0.02)])
                 if r is not None and 'raises' not in r: return {'tried': tried, 'failing': r}
+    # declaration ORDER of influences: W = sum over tokens declared in sequence order (S: + 1j*a shared real leaf,
+    # R: + r real-part-only leaf, P: + z complex pair); then products / quotients / functions of W, every input queried
+    import itertools
+    seqs = [''.join(q) for n_ in (1, 2, 3) for q in itertools.product('SRP', repeat=n_)] + ['SPPS', 'SPRS', 'SRPS', 'PSSP']
+    for q in seqs:
+        W = None
+        for k_, tok in enumerate(q):
+            term = ('bin', 'mul', ('num', 1j), ('var', k_)) if tok == 'S' else ('var', k_)
+            W = term if W is None else ('bin', 'add', W, term)
+        kinds = ['c' if tok == 'P' else 'r' for tok in q]
+        vals = [complex(0.5 + 0.75 * k_, 3.0 - k_) if tok == 'P' else round(0.5 + 0.6 * k_, 2) for k_, tok in enumerate(q)]
+        us = [(0.2 + 0.05 * k_, 0.3) for k_ in range(len(q))]
+        kk = 2 + 1j
+        for t in (('bin', 'mul', W, ('num', kk)), ('bin', 'mul', ('num', kk), W), ('bin', 'div', W, ('num', kk)),
+                  ('bin', 'mul', W, W), ('bin', 'div', ('num', kk), W), ('un', 'exp', ('bin', 'mul', W, ('num', 0.25)))):
+            tried += 1
+            r = check_tree(t, vals, kinds, us)
+            if r is not None and 'raises' not in r: return {'tried': tried, 'failing': r}
     for _ in range(n):
         nin = rng.randint(1, 3)
         t = rand_tree(rng, nin, rng.randint(1, 4))
